@@ -31,7 +31,7 @@ ALL_NODES = ["leaf:A", "leaf:B", "single", "top", "tsum", "outer", "byKey:0", "b
 FIXES = {"FixAbsent": "TRUE", "FixEqWrite": "TRUE", "FixTopLevel": "TRUE", "SharedKeys": "FALSE"}
 
 
-def cfg_text(nodes, vals, maxops, capacity, maxretain=1, emit="all", raw_only=None):
+def cfg_text(nodes, vals, maxops, capacity, maxretain=1, emit="all", shadow=False):
     nd = ", ".join(f'"{n}"' for n in nodes)
     vs = ", ".join(str(v) for v in vals)
     return f"""SPECIFICATION Spec
@@ -47,6 +47,7 @@ CONSTANTS
   Vals = {{{vs}}}
   MaxOps = {maxops}
   MaxRetain = {maxretain}
+  Shadow = {"TRUE" if shadow else "FALSE"}
   Emit = "{emit}"
 VIEW View
 INVARIANT HoldsC01 HoldsC02 HoldsC03
@@ -194,7 +195,7 @@ def run(chk: vlib.Check):
     for name in PLAN[(prop, tier)]:
         nodes, vals, maxops, capacity, maxretain = CONFIGS[name]
         cfg = chk.work / f"MC_{name}.cfg"
-        cfg.write_text(cfg_text(nodes, vals, maxops, capacity, maxretain, emit="all"))
+        cfg.write_text(cfg_text(nodes, vals, maxops, capacity, maxretain, emit="all", shadow=True))
         # (no -coverage here: TLC's coverage bookkeeping runs out of memory on the recursive interpreter;
         #  non-vacuity is measured below from the operations that actually occur in the emitted transitions)
         r = vlib.tlc(SP / "MCPico.tla", cfg, workers=6, timeout=1500, heap="8g", seed=chk.seed)
